@@ -228,7 +228,7 @@ def run(ctx, chk):
     else:
         chk.fail('C17.4', 'read-and-clear', 'get_interrupt is not read-and-clear of the latch', file, None)
     cs = [c for c in prog.callers(J + 'get_interrupt')]
-    if len(cs) == 1 and cs[0][0] == 'devices::io::IO::run_clock_cycles':
+    if len(cs) == 1 and cs[0][0] in families(prog, ['devices::io::IO::run_clock_cycles']):
         chk.ok('C17.4', 'once-per-tick', sample={'callers': [c[0] for c in cs]})
     else:
         chk.fail('C17.4', 'once-per-tick', 'get_interrupt call sites: %s' % [(c[0], c[2]) for c in cs], file, None)
